@@ -365,6 +365,63 @@ func SameTargetModels() []Tagged {
 	return out
 }
 
+// TTUPairModels: two or three tuple-to-usersets under one operator, over the same or different tuplesets and with the same or
+// different computed relations whose type sets are {user}, {group}, {user, group}, {group, user:*}: the operands of an
+// intersection may have no type in common (the model is then ill-founded), the subtrahend's types must not leak into the base,
+// and two operands that share a tupleset stay two operands.
+func TTUPairModels() []Tagged {
+	var out []Tagged
+	u, g := ref.Restriction{Type: "user"}, ref.Restriction{Type: "group"}
+	folder := ref.TypeDef{Name: "folder", Rels: []ref.Relation{
+		{Name: "x", Rw: ref.T(), Restr: []ref.Restriction{u}},
+		{Name: "y", Rw: ref.T(), Restr: []ref.Restriction{g}},
+		{Name: "z", Rw: ref.T(), Restr: []ref.Restriction{u, g}},
+		{Name: "w", Rw: ref.T(), Restr: []ref.Restriction{g, {Type: "user", Wildcard: true}}},
+	}}
+	type leaf struct{ rel, ts string }
+	leaves := []leaf{{"x", "p"}, {"y", "p"}, {"z", "p"}, {"w", "p"}, {"x", "q"}, {"y", "q"}}
+	mk := func(tag string, rw *ref.Rewrite) {
+		// only the relations the rewrite uses are declared (every further node multiplies the schedules to explore)
+		doc := ref.TypeDef{Name: "doc", Rels: []ref.Relation{{Name: "a", Rw: rw}}}
+		f := ref.TypeDef{Name: "folder"}
+		usedTS, usedRel := map[string]bool{}, map[string]bool{}
+		for _, c := range rw.Ch {
+			usedTS[c.Tupleset], usedRel[c.Rel] = true, true
+		}
+		for _, ts := range []string{"p", "q"} {
+			if usedTS[ts] {
+				doc.Rels = append(doc.Rels, ref.Relation{Name: ts, Rw: ref.T(), Restr: []ref.Restriction{{Type: "folder"}}})
+			}
+		}
+		for _, r := range folder.Rels {
+			if usedRel[r.Name] {
+				f.Rels = append(f.Rels, r)
+			}
+		}
+		out = append(out, Tagged{Tag: "ttu-pair: a: " + tag, M: &ref.Model{Schema: "1.1", Types: []ref.TypeDef{{Name: "user"}, {Name: "group"}, doc, f}}})
+	}
+	ops := []struct {
+		k ref.Kind
+		w string
+	}{{ref.Inter, "and"}, {ref.Diff, "but not"}, {ref.Union, "or"}}
+	for _, op := range ops {
+		for _, l := range leaves {
+			for _, r := range leaves {
+				mk(fmt.Sprintf("%s from %s %s %s from %s", l.rel, l.ts, op.w, r.rel, r.ts),
+					&ref.Rewrite{Kind: op.k, Ch: []*ref.Rewrite{ref.TT(l.rel, l.ts), ref.TT(r.rel, r.ts)}})
+			}
+		}
+	}
+	for _, t := range [][3]leaf{{leaves[0], leaves[2], leaves[1]}, {leaves[2], leaves[0], leaves[3]}, {leaves[2], leaves[3], leaves[2]}, {leaves[0], leaves[4], leaves[1]}, {leaves[2], leaves[1], leaves[5]}} {
+		for _, k := range []ref.Kind{ref.Inter, ref.Union} {
+			w := map[ref.Kind]string{ref.Inter: "and", ref.Union: "or"}[k]
+			mk(fmt.Sprintf("%s from %s %s %s from %s %s %s from %s", t[0].rel, t[0].ts, w, t[1].rel, t[1].ts, w, t[2].rel, t[2].ts),
+				&ref.Rewrite{Kind: k, Ch: []*ref.Rewrite{ref.TT(t[0].rel, t[0].ts), ref.TT(t[1].rel, t[1].ts), ref.TT(t[2].rel, t[2].ts)}})
+		}
+	}
+	return out
+}
+
 // TuplesetListModels: the tupleset's restriction list ranges over every list of one to three entries drawn (with repetition)
 // from {doc, doc with k, folder, folder with k, bare - a type without the relation}, so that a parent type is named twice (plain and conditioned, in either order,
 // or literally twice) before, between and after other parent types; the TTU sits alone, under each operator and on a cycle.
